@@ -36,6 +36,13 @@ HARNESSES = [
        scenarios_thorough=with_nh(batches([1, 2], 3), [0, 1, 2, 3, 4]) + with_nh([b for b in batches([1, 2, 3], 3) if 3 in b.values()], [2]),
        desc='handle_operations on one batch of <=3 real cpq_operation objects (kinds concrete per query, priorities symbolic over all int) from any heapified state of NH elements: statuses set, results explained by some sequential order, contents conserved, heap invariant and mark==size==my_size re-established',
        bounds={'batch': '<=3 operations, every push/pop pattern', 'heap elements before the batch': 'quick 0,1,3 / thorough 0..4', 'priorities': 'all int values'}),
+  dict(name='batch_throw', unit='exc', harness='h_batch.c', defines={'EXC': None}, cbmc=SEQ_CBMC, timeout=600,
+       scenarios_quick=[dict(PART=1, NH=2, B0=1, B1=2, B2=1, FAULT=f) for f in (0, 1, 2)] + [dict(PART=1, NH=0, B0=2, B1=1, B2=0, FAULT=1), dict(PART=1, NH=1, B0=1, B1=0, B2=0, FAULT=1)] +
+                       [dict(PART=4, FAULT=f) for f in (0, 1)],
+       scenarios_thorough=[dict(PART=1, NH=nh, FAULT=f, **b) for nh in (0, 2, 3) for b in batches([1, 2, 3], 3) if 1 in b.values()
+                           for f in range(1, list(b.values()).count(1) + 1)] + [dict(PART=4, FAULT=f) for f in (0, 1)],
+       desc='element type whose copy may throw (unit compiled with exceptions, exception lowering of the translator): the FAULT-th element copy of a batch throws: nothing escapes handle_operations, exactly that push is FAILED and leaves no element, the other operations of the batch keep all batch_step guarantees; PART 4: public push() end to end: the exception reaches exactly that caller (via r1::throw_exception), queue unchanged, next push succeeds',
+       bounds={'batch': '<=3 operations', 'fault position': 'every copy of the batch (concrete per query)', 'throwing operation': 'element COPY in push(const T&); moves are noexcept'}),
   dict(name='heap_kernels', unit='batch', harness='h_batch.c', cbmc=['--unwind', '9', '--object-bits', '10'], timeout=900,
        scenarios_quick=[{'PART': 2, 'NN': n, 'MM': n - 1} for n in range(1, 8)] + [{'PART': 2, 'NN': 4, 'MM': 0}, {'PART': 2, 'NN': 5, 'MM': 2}] +
                        [{'PART': 3, 'NN': n, 'MM': m} for n in (1, 2, 4, 7) for m in sorted(set([0, n // 2, n]))],
@@ -70,7 +77,8 @@ OUTSIDE = [
   'more than 3 threads; more than 1 operation per thread through the full queue code (2 per thread only in the protocol harness agg_*)',
   'schedules with more scheduling rounds than stated per harness; at loop unroll 1 (quick lin_2t) a context switch after the second iteration of a list loop is only reached in the forced rounds',
   'std::vector reallocation inside a concurrent operation (queue is constructed with capacity 8; _M_realloc_insert is cut out of the thread bodies and asserted unreachable; growth is exercised sequentially by the selftest differential only)',
-  'element types other than int, user comparators, emplace, the throwing copy/move part of the property (exceptions compiled out: TBB_USE_EXCEPTIONS=0)',
+  'element types other than int (and the int-wrapper Elem of batch_throw), user comparators, emplace',
+  'throwing MOVE constructor/assignment (try_pop move-assigns the result outside any try block: a throwing move there is outside the documented contract and not checked); exceptions inside concurrent threads (batch_throw is sequential: one batch, or one public push)',
   'batches of more than 3 operations in the sequential lemma; heaps of more than 7 elements in the kernel lemmas',
   'non-SC memory models (the release/acquire pairs on status and handler_busy are taken at sequentially consistent strength)',
   'unsafe (non-concurrent) members: clear, swap, assign, copy/move construction',
